@@ -2,7 +2,7 @@
    M32 = 2^32; window = 200, as in the code. *)
 From Coq Require Import ZArith List Bool.
 From I18n Require Import Lib.Outcome Model.IntExpr Model.PluralForms Generated.Languages Generated.PyConsts
-  Proofs.Codomain Proofs.Period Proofs.PluralForms.
+  Proofs.Codomain Proofs.Period Proofs.PluralForms Proofs.PluralFormsNoCrash.
 Import ListNotations.
 Local Open Scope Z_scope.
 
@@ -12,6 +12,20 @@ Theorem C07_syntax_iff : forall maxd inp,
   (check_plurals_core maxd inp = Ok ([DSyntax], None) <-> parse_plural_forms maxd (pf_value inp) = Err PFSyntax).
 Proof. exact syntax_error_iff. Qed.
 Print Assumptions C07_syntax_iff.
+
+(* With the interpreter's digit limit as generated (0 = unlimited after `import lib`) no foreign exception can
+   occur anywhere in check_plurals: the expression parser's fuel suffices and int() cannot refuse a constant
+   (C04_parse_no_crash), the registry strings go through the same parser, and the range analysis' assertions are
+   dead (C05_no_assertion_fires).  So the alternative above disappears. *)
+Theorem C07_no_crash : forall inp c, check_plurals_core int_max_str_digits inp <> Crash c.
+Proof. exact check_plurals_core_no_crash. Qed.
+Print Assumptions C07_no_crash.
+
+Theorem C07_syntax_iff_exact : forall inp,
+  check_plurals_core int_max_str_digits inp = Ok ([DSyntax], None) <->
+  parse_plural_forms int_max_str_digits (pf_value inp) = Err PFSyntax.
+Proof. exact syntax_error_iff_exact. Qed.
+Print Assumptions C07_syntax_iff_exact.
 
 (* ... and it accepts only values that contain  nplurals=<positive integer>;[blanks]plural=<expr>[;]  with an
    expression text the plural-expression parser accepts (C04); l and r are the text around that declaration. *)
